@@ -748,6 +748,10 @@ func c24Generate(r *verifh.Run) []string {
 		"fetch t1 ka kb", "rel ka", "get t1", "wait",
 		"reset 3 ka=v1", "fetch t1 ka kb", "sync ka kb", "stop", "get t1", "fetch t2 ka", "wait", "get t0",
 		"reset 1", "fetch t1", "probe t1", "get t1", "wait", "requested",
+		// present values of length 0, 1, 63, 64, 65 (chunk boundaries) vs. absence
+		"reset 2 ka=v kb=a kc=vx kd=v"+strings.Repeat("y", 63)+" ke=v"+strings.Repeat("z", 64)+" kf=v"+strings.Repeat("w", 65),
+		"fetch t1 ka kb kc", "fetch t2 kd ke kf ka", "rel ka", "rel kb", "rel kc", "get t1", "rel kd", "rel ke", "rel kf", "get t2", "fetch t3 ka kb", "get t3", "wait", "requested",
+		"free 3 2 P k0=v k1=a k2=vq T t0:k0,k1 t1:k2,k0 t2:k1",
 	)
 	nseq := r.N(1500, 40000)
 	keyNames := []string{"ka", "kb", "kc", "kd", "ke", "kf", "kg", "kh"}
@@ -771,7 +775,7 @@ func c24Generate(r *verifh.Run) []string {
 			case r.RNG.Chance(10):
 				continue // not listed = absent
 			default:
-				rd = "v" + strconv.Itoa(r.RNG.Intn(90)+10)
+				rd = c24Val(r)
 			}
 			m.parent[k] = rd
 			line += " " + k + "=" + rd
@@ -918,7 +922,7 @@ func c24Generate(r *verifh.Run) []string {
 			case r.RNG.Chance(30):
 				line += fmt.Sprintf(" k%d=a", j)
 			default:
-				line += fmt.Sprintf(" k%d=v%d", j, r.RNG.Intn(900))
+				line += fmt.Sprintf(" k%d=%s", j, c24Val(r))
 			}
 		}
 		line += " T"
@@ -936,6 +940,16 @@ func c24Generate(r *verifh.Run) []string {
 		out = append(out, line)
 	}
 	return out
+}
+
+// c24Val returns a parent value token: mostly short, and often a chunk-boundary length
+// (0, 1, 63, 64, 65 bytes; a present zero-length value is not the same as absence).
+func c24Val(r *verifh.Run) string {
+	if r.RNG.Chance(35) {
+		n := []int{0, 0, 1, 63, 64, 65}[r.RNG.Intn(6)]
+		return "v" + strings.Repeat(string(rune('a'+r.RNG.Intn(26))), n)
+	}
+	return "v" + strconv.Itoa(r.RNG.Intn(90)+10)
 }
 
 func c24Uniq(s []string) []string {
